@@ -46,7 +46,8 @@ var keyA = crash.FixedKey(1, 21)
 type cred struct {
 	name   string         // e.g. "M/ldp"
 	format string         // ldp_vc | jwt_vc
-	id     string         // credential id
+	id     string         // credential id (may be empty, may be shared with another credential)
+	key    string         // content identity used by the harness
 	view   map[string]any // the credential as JSON paths see it (harness's own rendering)
 	parsed vc.VerifiableCredential
 	raw    any // how it appears inside a presentation: object (ldp) or string (jwt)
@@ -65,50 +66,86 @@ func subjectOf(kind string) map[string]any {
 	}
 }
 
+// The universe: credentials are distinct OBJECTS; ids are not identities. M exists as JSON-LD and as JWT under the
+// same id (jti == id); N1/ldp is a re-issued clone of M with other claims under M's id; N2/ldp has no id at all;
+// "M/ldp+dup" is a byte-identical second copy of M/ldp. The harness identifies credentials by content (key).
 func buildUniverse() []cred {
+	type spec struct{ name, kind, format, id string }
+	specs := []spec{
+		{"M/ldp", "M", "ldp_vc", issuerDID + "#M"}, {"M/jwt", "M", "jwt_vc", issuerDID + "#M"},
+		{"N1/ldp", "N1", "ldp_vc", issuerDID + "#M"}, {"N1/jwt", "N1", "jwt_vc", issuerDID + "#N1"},
+		{"N2/ldp", "N2", "ldp_vc", ""}, {"N2/jwt", "N2", "jwt_vc", issuerDID + "#N2"},
+		{"D/jwt", "D", "jwt_vc", issuerDID + "#D"}, {"M/ldp+dup", "M", "ldp_vc", issuerDID + "#M"},
+	}
 	var out []cred
-	for _, kind := range []string{"M", "N1", "N2", "D"} {
+	for _, sp := range specs {
+		kind, format, id := sp.kind, sp.format, sp.id
 		typ := "OrgCredential"
 		if kind == "D" {
 			typ = "DecoyCredential"
 		}
-		for _, format := range []string{"ldp_vc", "jwt_vc"} {
-			id := issuerDID + "#" + kind + "-" + format
-			c := cred{name: kind + "/" + format[:3], format: format, id: id}
-			if format == "ldp_vc" {
-				doc := map[string]any{
-					"@context":          []any{"https://www.w3.org/2018/credentials/v1"},
-					"id":                id,
-					"type":              []any{"VerifiableCredential", typ},
-					"issuer":            issuerDID,
-					"issuanceDate":      "2024-01-01T00:00:00Z",
-					"credentialSubject": subjectOf(kind),
-					"proof": map[string]any{"type": "JsonWebSignature2020", "created": "2024-01-01T00:00:00Z", "proofPurpose": "assertionMethod",
-						"verificationMethod": issuerDID + "#0", "jws": "eyJhbGciOiJFUzI1NiIsImI2NCI6ZmFsc2UsImNyaXQiOlsiYjY0Il19..c2ln"},
-				}
-				raw, _ := json.Marshal(doc)
-				p, err := vc.ParseVerifiableCredential(string(raw))
-				if err != nil {
-					panic(err)
-				}
-				c.parsed, c.view, c.raw = *p, doc, doc
-			} else {
-				inner := map[string]any{"@context": []any{"https://www.w3.org/2018/credentials/v1"}, "type": []any{"VerifiableCredential", typ}, "credentialSubject": subjectOf(kind)}
-				claims := map[string]any{"iss": issuerDID, "sub": holderDID, "jti": id, "nbf": float64(1704067200), "vc": inner}
-				tok := crash.CompactJSON(map[string]any{"alg": "ES256", "typ": "JWT", "kid": issuerDID + "#0"}, claims, keyA)
-				p, err := vc.ParseVerifiableCredential(tok)
-				if err != nil {
-					panic(err)
-				}
-				// VC data model rendering of a JWT credential: plural subject, claims mapped to their members
-				c.view = map[string]any{"@context": []any{"https://www.w3.org/2018/credentials/v1"}, "id": id, "type": []any{"VerifiableCredential", typ}, "issuer": issuerDID,
-					"issuanceDate": "2024-01-01T00:00:00Z", "credentialSubject": []any{subjectOf(kind)}}
-				c.parsed, c.raw = *p, tok
+		c := cred{name: sp.name, format: format, id: id}
+		if format == "ldp_vc" {
+			doc := map[string]any{
+				"@context":          []any{"https://www.w3.org/2018/credentials/v1"},
+				"type":              []any{"VerifiableCredential", typ},
+				"issuer":            issuerDID,
+				"issuanceDate":      "2024-01-01T00:00:00Z",
+				"credentialSubject": subjectOf(kind),
+				"proof": map[string]any{"type": "JsonWebSignature2020", "created": "2024-01-01T00:00:00Z", "proofPurpose": "assertionMethod",
+					"verificationMethod": issuerDID + "#0", "jws": "eyJhbGciOiJFUzI1NiIsImI2NCI6ZmFsc2UsImNyaXQiOlsiYjY0Il19..c2ln"},
 			}
-			out = append(out, c)
+			if id != "" {
+				doc["id"] = id
+			}
+			raw, _ := json.Marshal(doc)
+			p, err := vc.ParseVerifiableCredential(string(raw))
+			if err != nil {
+				panic(err)
+			}
+			c.parsed, c.view, c.raw = *p, doc, doc
+		} else {
+			inner := map[string]any{"@context": []any{"https://www.w3.org/2018/credentials/v1"}, "type": []any{"VerifiableCredential", typ}, "credentialSubject": subjectOf(kind)}
+			claims := map[string]any{"iss": issuerDID, "sub": holderDID, "nbf": float64(1704067200), "vc": inner}
+			if id != "" {
+				claims["jti"] = id
+			}
+			tok := crash.CompactJSON(map[string]any{"alg": "ES256", "typ": "JWT", "kid": issuerDID + "#0"}, claims, keyA)
+			p, err := vc.ParseVerifiableCredential(tok)
+			if err != nil {
+				panic(err)
+			}
+			// VC data model rendering of a JWT credential: plural subject, claims mapped to their members
+			c.view = map[string]any{"@context": []any{"https://www.w3.org/2018/credentials/v1"}, "type": []any{"VerifiableCredential", typ}, "issuer": issuerDID,
+				"issuanceDate": "2024-01-01T00:00:00Z", "credentialSubject": []any{subjectOf(kind)}}
+			if id != "" {
+				c.view["id"] = id
+			}
+			c.parsed, c.raw = *p, tok
 		}
+		c.key = fingerprint(id, format, c.view["credentialSubject"])
+		out = append(out, c)
 	}
 	return out
+}
+
+// fingerprint identifies a credential by content: id (may be empty or shared), format and the claims.
+func fingerprint(id, format string, subject any) string {
+	subject = toAny(subject)
+	if a, ok := subject.([]any); ok && len(a) == 1 {
+		subject = a[0]
+	}
+	b, _ := json.Marshal(subject)
+	return id + "|" + format + "|" + string(b)
+}
+
+// keyOfVC is the fingerprint of a credential the implementation hands back.
+func keyOfVC(c vc.VerifiableCredential) string {
+	id := ""
+	if c.ID != nil {
+		id = c.ID.String()
+	}
+	return fingerprint(id, c.Format(), c.CredentialSubject)
 }
 
 // ---------------------------------------------------------------- reference evaluator (harness's own)
@@ -373,6 +410,37 @@ func reqSatisfiable(r requirementT, matched map[string]bool, def definitionT) bo
 	return true
 }
 
+// completeWith: do the credentials (judged by content) form a complete selection for the definition? Every descriptor
+// without requirements, every requirement otherwise (lower bounds; a descriptor counts when one of the credentials satisfies it).
+func completeWith(def definitionT, creds []cred) (complete bool, err error) {
+	matched := map[string]bool{}
+	for _, d := range def.InputDescriptors {
+		for _, c := range creds {
+			ok, e := satisfies(def, d, c)
+			if e != nil {
+				return false, e
+			}
+			if ok {
+				matched[d.ID] = true
+			}
+		}
+	}
+	if len(def.SubmissionRequirements) == 0 {
+		for _, d := range def.InputDescriptors {
+			if !matched[d.ID] {
+				return false, nil
+			}
+		}
+		return true, nil
+	}
+	for _, rq := range def.SubmissionRequirements {
+		if !reqSatisfiable(rq, matched, def) {
+			return false, nil
+		}
+	}
+	return true, nil
+}
+
 // ---------------------------------------------------------------- presentations / envelopes
 
 func ldProof() map[string]any {
@@ -426,18 +494,19 @@ func vpView(p any) any {
 	return p
 }
 
-// credID identifies the credential found at a resolved path.
+// credID identifies (by content) the credential found at a resolved path; "" = not a credential.
 func credID(v any) string {
 	switch x := v.(type) {
 	case map[string]any:
 		if _, isVP := x["verifiableCredential"]; isVP {
 			return ""
 		}
-		if _, hasSubject := x["credentialSubject"]; !hasSubject {
+		subject, hasSubject := x["credentialSubject"]
+		if !hasSubject {
 			return ""
 		}
-		s, _ := x["id"].(string)
-		return s
+		id, _ := x["id"].(string)
+		return fingerprint(id, "ldp_vc", subject)
 	case string:
 		parts := strings.Split(x, ".")
 		if len(parts) != 3 {
@@ -451,11 +520,12 @@ func credID(v any) string {
 		if json.Unmarshal(b, &claims) != nil {
 			return ""
 		}
-		if _, isVC := claims["vc"]; !isVC {
+		inner, isVC := claims["vc"].(map[string]any)
+		if !isVC {
 			return ""
 		}
-		s, _ := claims["jti"].(string)
-		return s
+		id, _ := claims["jti"].(string)
+		return fingerprint(id, "jwt_vc", inner["credentialSubject"])
 	}
 	return ""
 }
@@ -590,15 +660,24 @@ func grammarFormats() []namedDef {
 
 // grammarRequirements: 2 (thorough: also 3) descriptors over groups A/B, 1-2 requirements incl. one nesting level.
 func grammarRequirements(thorough bool) []namedDef {
-	mkD := func(id string, f fieldT, groups []string) descriptorT {
-		d := descriptorT{ID: id, Group: groups}
-		d.Constraints.Fields = []fieldT{f}
+	type dspec struct {
+		f      fieldT
+		format formatT
+	}
+	mkD := func(id string, sp dspec, groups []string) descriptorT {
+		d := descriptorT{ID: id, Group: groups, Format: sp.format}
+		d.Constraints.Fields = []fieldT{sp.f}
 		return d
 	}
-	fields := []fieldT{
-		{ID: sp("x"), Path: pathAlphabet["x"], Filter: &filterT{Type: "string", Const: sp("alpha-1")}}, // M, N2
-		typeField, // M, N1, N2
-		{Path: []string{"$.type"}, Filter: &filterT{Type: "string", Const: sp("DecoyCredential")}}, // D
+	xAlpha := fieldT{ID: sp("x"), Path: pathAlphabet["x"], Filter: &filterT{Type: "string", Const: sp("alpha-1")}} // M, N2
+	xBeta := fieldT{ID: sp("x2"), Path: pathAlphabet["x"], Filter: &filterT{Type: "string", Const: sp("beta-1")}}  // N1 (the clone that shares M's id)
+	decoy := fieldT{Path: []string{"$.type"}, Filter: &filterT{Type: "string", Const: sp("DecoyCredential")}}      // D
+	// descriptor variants: V0 overlapping match sets; V1 disjoint match sets among credentials that share an id;
+	// V2 the same claims pinned to one format each (the same credential kept as JWT and as JSON-LD)
+	variants := [][]dspec{
+		{{xAlpha, nil}, {typeField, nil}, {decoy, nil}},
+		{{xAlpha, nil}, {xBeta, nil}},
+		{{typeField, formatT{"jwt_vc": {"alg": {"ES256"}}}}, {typeField, formatT{"ldp_vc": {"proof_type": {"JsonWebSignature2020"}}}}},
 	}
 	groupSets := [][]string{{"A"}, {"B"}, {"A", "B"}}
 	rules := func(g string) []requirementT {
@@ -630,59 +709,72 @@ func grammarRequirements(thorough bool) []namedDef {
 			}
 		}
 	}
-	var out []namedDef
-	nd := []int{2}
-	if thorough {
-		nd = []int{2, 3}
+	// requirements listed in the opposite order of the descriptors they refer to
+	for _, a := range []requirementT{ra[0], ra[1], ra[4]} {
+		for _, b := range []requirementT{rb[0], rb[1], rb[4]} {
+			reqSets = append(reqSets, []requirementT{b, a})
+		}
 	}
-	for _, n := range nd {
-		idx := make([]int, n)
-		for {
-			var ds []descriptorT
-			used := map[string]bool{}
-			for i := 0; i < n; i++ {
-				ds = append(ds, mkD(fmt.Sprintf("d%d", i+1), fields[i], groupSets[idx[i]]))
-				for _, g := range groupSets[idx[i]] {
-					used[g] = true
-				}
-			}
-			for ri, rs := range reqSets {
-				// every group used by a descriptor is referenced by some requirement
-				ref := map[string]bool{}
-				var walk func(r requirementT)
-				walk = func(r requirementT) {
-					if r.From != "" {
-						ref[r.From] = true
-					}
-					for _, nr := range r.FromNested {
-						walk(nr)
+	var out []namedDef
+	for vi, variant := range variants {
+		nd := []int{2}
+		if thorough && len(variant) >= 3 {
+			nd = []int{2, 3}
+		}
+		for _, n := range nd {
+			idx := make([]int, n)
+			for {
+				// the added variants only with both descriptors in one group or one group each
+				admitted := vi == 0 || (idx[0] == 0 && (idx[1] == 0 || idx[1] == 1))
+				var ds []descriptorT
+				used := map[string]bool{}
+				for i := 0; i < n; i++ {
+					ds = append(ds, mkD(fmt.Sprintf("d%d", i+1), variant[i], groupSets[idx[i]]))
+					for _, g := range groupSets[idx[i]] {
+						used[g] = true
 					}
 				}
-				for _, r := range rs {
-					walk(r)
-				}
-				ok := true
-				for g := range used {
-					if !ref[g] {
-						ok = false
+				for ri, rs := range reqSets {
+					if !admitted {
+						break
 					}
+					// every group used by a descriptor is referenced by some requirement
+					ref := map[string]bool{}
+					var walk func(r requirementT)
+					walk = func(r requirementT) {
+						if r.From != "" {
+							ref[r.From] = true
+						}
+						for _, nr := range r.FromNested {
+							walk(nr)
+						}
+					}
+					for _, r := range rs {
+						walk(r)
+					}
+					ok := true
+					for g := range used {
+						if !ref[g] {
+							ok = false
+						}
+					}
+					if !ok {
+						continue
+					}
+					out = append(out, namedDef{fmt.Sprintf("REQ/v%d/n%d/groups=%v/req#%d", vi, n, idx, ri), definitionT{ID: "pd", InputDescriptors: ds, SubmissionRequirements: rs}})
 				}
-				if !ok {
-					continue
+				k := 0
+				for k < n {
+					idx[k]++
+					if idx[k] < len(groupSets) {
+						break
+					}
+					idx[k] = 0
+					k++
 				}
-				out = append(out, namedDef{fmt.Sprintf("REQ/n%d/groups=%v/req#%d", n, idx, ri), definitionT{ID: "pd", InputDescriptors: ds, SubmissionRequirements: rs}})
-			}
-			k := 0
-			for k < n {
-				idx[k]++
-				if idx[k] < len(groupSets) {
+				if k == n {
 					break
 				}
-				idx[k] = 0
-				k++
-			}
-			if k == n {
-				break
 			}
 		}
 	}
@@ -715,9 +807,9 @@ func TestVerifC12(t *testing.T) {
 	r := ev.Start(t, "C12")
 	defer r.Finish()
 	universe := buildUniverse()
-	byID := map[string]cred{}
+	byKey := map[string]cred{}
 	for _, c := range universe {
-		byID[c.id] = c
+		byKey[c.key] = c
 	}
 	maxWallet := 3
 	if r.Thorough() {
@@ -730,7 +822,7 @@ func TestVerifC12(t *testing.T) {
 	defs = append(defs, grammarFields()...)
 	defs = append(defs, grammarFormats()...)
 	defs = append(defs, grammarRequirements(r.Thorough())...)
-	r.Rule("definitions = union of three exhaustively enumerated sub-grammars: FIELDS (1 descriptor; field = 7 path sets x 14 filters {none, type-only x4, const x3, enum, pattern with 0/1/2 groups, unanchored one-group pattern, pattern on type} x optional {unset,false,true}, alone and behind a type field), FORMATS (2 descriptors; 7 designations at definition level x 7 at descriptor 1 x 3 at descriptor 2), REQUIREMENTS (2, thorough 3, descriptors over groups {A},{B},{A,B}; 1-2 requirements from {all, pick count 1/2, min 0/1/2, max 1, min+max, min only, none} per group plus one nesting level; every group referenced); only schema-valid definitions kept. wallets = every subset (<=3, thorough <=4; quick: <=2 for single-descriptor definitions) of {matching, near(one field off), near(array-valued field), decoy} x {ldp_vc, jwt_vc}. For each matching pair: envelopes {single, array-of-1, array-with-decoy-first} x {ldp_vp, jwt_vp}, and every mutation of the correct submission: all enum single mutations of the descriptor map + permute, drop, duplicate (plain / forged first / forged last), retarget, change format, nest/un-nest. A case is distinct by (definition, wallet[, envelope, mutation])")
+	r.Rule("definitions = union of three exhaustively enumerated sub-grammars: FIELDS (1 descriptor; field = 7 path sets x 14 filters {none, type-only x4, const x3, enum, pattern with 0/1/2 groups, unanchored one-group pattern, pattern on type} x optional {unset,false,true}, alone and behind a type field), FORMATS (2 descriptors; 7 designations at definition level x 7 at descriptor 1 x 3 at descriptor 2), REQUIREMENTS (2, thorough 3, descriptors over groups {A},{B},{A,B}; descriptor variants: overlapping match sets / disjoint match sets among credentials sharing an id / same claims pinned to one format each; 1-2 requirements from {all, pick count 1/2, min 0/1/2, max 1, min+max, min only, none} per group in both orders plus one nesting level; every group referenced); only schema-valid definitions kept. wallets = every subset (<=3, thorough <=4; quick: <=2 for single-descriptor definitions) of 8 distinct credential objects {matching as ldp and as jwt under ONE id, re-issued clone with other claims under that same id, near(one field off) jwt, near(array-valued field) ldp WITHOUT id and jwt, decoy, byte-identical duplicate of the matching ldp}, identified by content. For EVERY pair the product entry points run: wallet PresentationSubmissionBuilder.Build (a returned submission must present a complete selection), verifier ParseEnvelope+ParsePresentationSubmission+Validate of an empty descriptor map over a presentation holding the whole wallet and over an empty envelope (accepted => zero credentials are complete). For each matching pair: envelopes {single, array-of-1, array-with-decoy-first} x {ldp_vp, jwt_vp}, and every mutation of the correct submission: all enum single mutations of the descriptor map + permute, drop, duplicate (plain / forged first / forged last), retarget, change format, nest/un-nest. A case is distinct by (definition, wallet[, envelope, mutation])")
 	r.Assume("the reference evaluator covers exactly the generated feature set (paths $.a.b / $.a[0].b; filters type/const/enum/pattern; optional; format designations; all/pick/count/min/max, one nesting level); cases outside it are counted as unjudged, never as violations")
 
 	var rc replayT
@@ -815,6 +907,95 @@ func TestVerifC12(t *testing.T) {
 					}
 				}
 			}
+			// ---- the product's entry points, for EVERY pair (also when nothing matches):
+			// wallet = PresentationSubmissionBuilder.Build (what holder.presenter calls), verifier = ParseEnvelope +
+			// ParsePresentationSubmission + Validate (what auth/api/iam and discovery call).
+			var sub pe.PresentationSubmission
+			var sign pe.SignInstruction
+			var berr error
+			buildOut, buildPanicked := guard("Build", func() string {
+				b := pd.PresentationSubmissionBuilder()
+				b.AddWallet(did.MustParseDID(holderDID), wvc)
+				sub, sign, berr = b.Build("ldp_vp")
+				if berr != nil {
+					return "error"
+				}
+				return "submission"
+			})
+			if buildPanicked {
+				if strings.Contains(buildOut, "presentation_definition.go") || strings.Contains(buildOut, "submission_requirement.go") {
+					// the same panic is reported (with its site) by the Match step below
+				} else {
+					r.Violation("C12|build|panic", "Build panics: "+buildOut, mk(buildOut))
+				}
+			}
+			r.Outcome("build:" + strings.Fields(buildOut)[0])
+			if refOK && !buildPanicked && berr == nil {
+				// the wallet returns a submission => the presented credentials are a complete selection
+				var presented []cred
+				known := true
+				for _, c := range sign.VerifiableCredentials {
+					pc, ok := byKey[keyOfVC(c)]
+					if !ok {
+						known = false
+					}
+					presented = append(presented, pc)
+				}
+				if !known {
+					r.Violation("C12|build|unknown-credential-presented", "Build selects a credential that is not in the wallet", mk(""))
+				} else if ok, err := completeWith(nd.def, presented); err == nil && !ok {
+					cls := "some-credentials"
+					if len(presented) == 0 {
+						cls = "empty-submission"
+					}
+					var pn []string
+					for _, c := range presented {
+						pn = append(pn, c.name)
+					}
+					r.Violation("C12|build|incomplete-selection-returned|"+cls, fmt.Sprintf("the wallet returns a submission (no error) for credentials %v, which are not a complete selection for the definition (%d mappings)", pn, len(sub.DescriptorMap)), mk(""))
+				}
+			}
+			if refOK {
+				// verifier side: a submission with an EMPTY descriptor map over (a) one presentation holding the whole wallet,
+				// (b) an empty envelope. Accepted => zero credentials are a complete selection for the definition.
+				zeroComplete, zerr := completeWith(nd.def, nil)
+				emptySub := []byte(`{"id":"s-empty","definition_id":"pd","descriptor_map":[]}`)
+				type venv struct {
+					name string
+					raw  []byte
+				}
+				vraw, _ := json.Marshal(presentation("ldp_vp", 2, wvc))
+				venvs := []venv{{"vp-holding-wallet", vraw}}
+				if len(wvc) == 0 {
+					venvs = append(venvs, venv{"empty-array", []byte("[]")})
+				}
+				for _, ve := range venvs {
+					o, p := guard("Validate(empty map)", func() string {
+						env, err := pe.ParseEnvelope(ve.raw)
+						if err != nil {
+							return "envelope-rejected"
+						}
+						ps, err := pe.ParsePresentationSubmission(emptySub)
+						if err != nil {
+							return "schema-rejected"
+						}
+						if _, err := ps.Validate(*env, *pd); err != nil {
+							return "rejected"
+						}
+						return "accepted"
+					})
+					r.Outcome("validate-empty-map:" + strings.Fields(o)[0])
+					if p {
+						if !strings.Contains(o, "presentation_definition.go") && !strings.Contains(o, "submission_requirement.go") {
+							r.Violation("C12|validate|panic", "Validate panics on an empty descriptor map: "+o, mk(o))
+						}
+						continue
+					}
+					if o == "accepted" && zerr == nil && !zeroComplete {
+						r.Violation("C12|validate|accepted-incomplete-submission|empty-map|"+ve.name, fmt.Sprintf("the verifier accepts an empty descriptor map (%s, wallet %v) for a definition that cannot be fulfilled without credentials", ve.name, wnames), replayT{Def: nd.name, Wallet: wnames, Envelope: ve.name, DefJSON: defJSON, SubJSON: emptySub})
+					}
+				}
+			}
 			// ---- the wallet side: Match
 			var selected []vc.VerifiableCredential
 			var mappings []pe.InputDescriptorMappingObject
@@ -858,10 +1039,7 @@ func TestVerifC12(t *testing.T) {
 				continue
 			}
 			for i, m := range mappings {
-				id := ""
-				if selected[i].ID != nil {
-					id = selected[i].ID.String()
-				}
+				id := keyOfVC(selected[i])
 				selByDescriptor[m.Id] = id
 				var d *descriptorT
 				for k := range nd.def.InputDescriptors {
@@ -869,7 +1047,7 @@ func TestVerifC12(t *testing.T) {
 						d = &nd.def.InputDescriptors[k]
 					}
 				}
-				c, known := byID[id]
+				c, known := byKey[id]
 				if d == nil || !known {
 					r.Violation("C12|match|mapping-to-unknown", fmt.Sprintf("mapping %s -> %s names an unknown descriptor or credential", m.Id, id), mk(""))
 					continue
@@ -905,7 +1083,7 @@ func TestVerifC12(t *testing.T) {
 				r.Violation("C12|resolve-fields|panic", "ResolveConstraintsFields panics: "+o, mk(o))
 			} else if rerr == nil {
 				for _, d := range nd.def.InputDescriptors {
-					c, ok := byID[selByDescriptor[d.ID]]
+					c, ok := byKey[selByDescriptor[d.ID]]
 					if !ok {
 						continue
 					}
@@ -924,17 +1102,8 @@ func TestVerifC12(t *testing.T) {
 					}
 				}
 			}
-			// ---- (i) Build and validation of the same definition, in every envelope shape
-			var sub pe.PresentationSubmission
-			var sign pe.SignInstruction
-			var berr error
-			if o, p := guard("Build", func() string {
-				b := pd.PresentationSubmissionBuilder()
-				b.AddWallet(did.MustParseDID(holderDID), wvc)
-				sub, sign, berr = b.Build("ldp_vp")
-				return "done"
-			}); p {
-				r.Violation("C12|build|panic", "Build panics: "+o, mk(o))
+			// ---- (i) validation of the wallet's submission by the verifier, in every envelope shape
+			if buildPanicked {
 				continue
 			}
 			if berr != nil {
@@ -1096,8 +1265,8 @@ func TestVerifC12(t *testing.T) {
 							again := map[string]string{}
 							sel2, _, _ := pd.Match(sign.VerifiableCredentials)
 							for i, m := range m2 {
-								if i < len(sel2) && sel2[i].ID != nil {
-									again[m.Id] = sel2[i].ID.String()
+								if i < len(sel2) {
+									again[m.Id] = keyOfVC(sel2[i])
 								}
 							}
 							if !reflect.DeepEqual(again, selByDescriptor) {
